@@ -73,7 +73,10 @@ def _w_walks_other(args):
 
 
 def check_case(r, kind, case):
-    if kind == 'rt':
+    if kind == 'long':
+        T = case['table']
+        r.merge(coder.w_long(('C05', case.get('name', '?'), case['k'], case['G'], case['start'], case['fast'], T, [int(c) for c in case['bits']])))
+    elif kind == 'rt':
         coder.replay_rt(r, 'C05', case)
     elif kind == 'diff':
         coder.diff_case(r, 'C05', case['k'], case['G'], case['G2'], case['start'], [int(c) for c in case['bits']])
